@@ -161,7 +161,11 @@ def recs_for(draw, fmt, n):
         elif fmt == "ndk":
             sec = draw(st.one_of(st.integers(0, 599).map(lambda x: x / 10.0), st.just(60.0)))
             out.append({"year": y, "month": m, "day": d, "hour": hh, "minute": mi, "second": sec, "lat": lat, "lon": lon, "depth": min(depth, 699.0),
-                        "moment": draw(st.floats(1.0, 9.999)), "exp": draw(st.integers(22, 30)), "name": "C%04d%02d%02d%02d%02dA" % (y, m, d, hh, mi)})
+                        "moment": draw(st.floats(1.0, 9.999)), "exp": draw(st.integers(22, 30)), "name": "C%04d%02d%02d%02d%02dA" % (y, m, d, hh, mi),
+                        # the documented alternatives of the categorical fields
+                        "depth_type": draw(st.sampled_from(["FREE", "FREE", "FIX", "BDY"])), "cmt_type": draw(st.sampled_from([0, 1, 1, 2])),
+                        "mr_type": draw(st.sampled_from(["TRIHD", "BOXHD"])), "stamp": draw(st.sampled_from(["S-20060726112355", "Q-20060726112355", "O-00000000000000"])),
+                        "hypo_cat": draw(st.sampled_from(["PDEW", "PDE", "ISC", "SWE", "MLI"]))})
     return out
 
 
